@@ -129,7 +129,15 @@ def _type_check_constant_reference(expression, source_file_name, ir, errors):
             referred_object.read_transform.type
         )
     else:
-        assert False, "Unexpected constant reference type."
+        errors.append(
+            [
+                error.error(
+                    source_file_name,
+                    expression.source_location,
+                    "Static references must refer to enum values or virtual fields.",
+                )
+            ]
+        )
 
 
 def _type_check_operation(expression, source_file_name, ir, errors):
